@@ -34,7 +34,7 @@ def _bcast(b, n):
 def least_squares(fun, x0, jac="2-point", bounds=(-float("inf"), float("inf")), method="trf", **kw):
     h = HOOK["least_squares"]
     if h is not None:
-        return h(fun, x0, bounds=bounds, **kw)
+        return h(fun, x0, bounds=bounds, jac=jac, method=method, **kw)
     if not CONFIG["enabled"]:
         raise core.Abort("unsupported", "least_squares (contract disabled by this harness)")
     x0 = objarr(_np.atleast_1d(x0))
